@@ -269,3 +269,86 @@ def run_case(case):
 def instr_table(_):
     from qvm.instrs import instructions
     return {i.op: [i.op_code, [o.__name__ for o in i.operands]] for i in instructions}
+
+
+# ---- layout certificate for the C03 monitor: declared type of every cell
+
+def _flatten(ctx, ty, as_param=False):
+    from qvm.memlayout import get_type_size
+    n = get_type_size(ctx, ty)
+    if as_param:
+        # every parameter is passed as one reference; memlayout nevertheless
+        # reserves get_type_size cells (D14): the extra cells are unconstrained
+        return [7] + [0] * (n - 1)
+    if ty.is_array:
+        if not ty.is_static_array:
+            return [7]
+        elem = _flatten(ctx, ty.array_base_type)
+        count = 1
+        for d in ty.array_dims:
+            count *= (d.static_ubound - d.static_lbound + 1)
+        hdr = [0, 2, 2] + [2, 2] * len(ty.array_dims)
+        out = hdr + elem * count
+        assert len(out) == n, (len(out), n)
+        return out
+    if ty.is_builtin:
+        return [ty.type_id]
+    struct = ctx.user_types[ty.name]
+    out = []
+    for ft in struct.fields.values():
+        out += _flatten(ctx, ft)
+    return out
+
+
+def build_cert(code, module):
+    """declared cell types of the globals and of every routine frame, keyed by the
+    address following the routine's `frame` instruction (CallFrame.code_start)"""
+    from qvm.instrs import op_code_to_instr
+    routines = list(code._routines.values())
+    ctx = routines[0].context
+    glob = []
+    for name, ty in ctx.global_vars.items():
+        glob += _flatten(ctx, ty)
+    # frame instructions in code order
+    bc = module.code
+    idx = 0
+    frames = []
+    while idx < len(bc):
+        ins = op_code_to_instr[bc[idx]]
+        size = 1 + sum(o.size for o in ins.operands)
+        if ins.op == 'frame':
+            p, l = struct.unpack('>HH', bc[idx + 1:idx + 5])
+            frames.append((idx + size, p, l))
+        idx += size
+    out = []
+    problems = []
+    if len(frames) != len(routines):
+        problems.append(f'{len(frames)} frame instructions for {len(routines)} routines')
+    for (cs, p, l), r in zip(frames, routines):
+        cells = []
+        for pn, pt in r.params.items():
+            cells += _flatten(ctx, pt, as_param=True)
+        np_ = len(cells)
+        for vn, vt in r.local_vars.items():
+            cells += _flatten(ctx, vt)
+        if np_ != p or len(cells) - np_ != l:
+            problems.append(f'routine {r.name}: frame {p},{l} but layout {np_},{len(cells) - np_}')
+        out.append([cs, cells])
+    return {'globals': glob, 'frames': out, 'problems': problems,
+            'nglobals_match': len(glob) == module.n_global_cells}
+
+
+def run_case_cert(case):
+    """run_case + the layout certificate derived from the compiler's symbol tables"""
+    code = compile_src(case['src'], case.get('level', 0), case.get('debug', False))
+    module = QModule.parse(bytes(code))
+    cert = build_cert(code, module)
+    r = run_case(case)
+    r['cert'] = cert
+    return r
+
+
+def stmt_lines(case):
+    code = compile_src(case['src'], case.get('level', 0), True)
+    module = QModule.parse(bytes(code))
+    return [[r.start_offset, r.end_offset, r.source_start_line] for r in module.debug_info.stmts]
